@@ -15,7 +15,7 @@ Ops (one per line):
   `end <count> complete|truncated`.
 -/
 open KV KV.Proto KV.PCQueue
-open KV.Chain (Pool Chain Item WPC SPC MPC)
+open KV.Chain (Pool Chain Item WPC LPC MPC)
 
 def parseList (s : String) (sep : String) : List String :=
   if s == "-" then [] else (s.splitOn sep).filter (· ≠ "")
@@ -169,12 +169,12 @@ def chainSys : Sys Chain where
     match t with
     | 0 => match c.main with
       | .fill _ => "w" | .join _ => "j" | .drain _ => "w" | .aborted => "A" | .finished => "d"
-    | i + 1 => match c.spc[i]? with
-      | some .start => "s" | some .consume => "w" | some (.produce _ _) => "w" | some .finished => "d" | none => "?"
+    | i + 1 => match (c.st i).pc with
+      | .start => "s" | .finished => "d" | _ => "w"
   done := Chain.allDone
-  final := fun c => ";".intercalate (((List.range c.spc.length).filter fun i => 0 < i && i + 1 < c.spc.length).map fun i =>
-    toString (i + 1) ++ ":" ++ joinNats (c.seen.getD i []))
-  fuel := fun c => 4 * (c.data.length + c.b + 2) * (c.spc.length + 2) + 10
+  final := fun c => ";".intercalate (((List.range (c.m + 1)).filter fun i => 0 < i && i < c.m).map fun i =>
+    toString (i + 1) ++ ":" ++ joinNats (c.seen i))
+  fuel := fun c => 4 * (c.data.length + c.b + 2) * (c.m + 3) + 10
 
 def parseInit (cap prods quotas : String) : Option State :=
   match cap.toNat? with
